@@ -65,6 +65,11 @@ class Tup(list):
     pass
 
 
+class BoxV(Tup):
+    """Box<T>: one element; field projections into its Unique/NonNull internals are transparent,
+    a deref yields the content"""
+
+
 class ArrV(list):
     """fixed-size array [T; N]"""
 
